@@ -62,7 +62,8 @@ def gen(rng, tier):
     return cases
 
 
-TECHNIQUE = "Lean 4 invariant + progress theorems over the lock-protocol LTS (no help from the environment) + scheduled real executions with deadlock detection"
+TECHNIQUE = ("Lean 4 invariant + progress theorems over the lock-protocol LTS (no help from the environment) + scheduled real executions with deadlock "
+             "detection; the run-time oracle (Spec/C04.lean, monitor stepB) is proved to accept every trace of the model")
 LEVEL_TEXT = ("Machine-checked over the same LTS as C04: no lost wake-up (a user that sent its datagram and waits for stepMtx implies the pipe "
               "is readable while the driver is before or in poll), bounded hand-over (along every execution fragment during which a user holds pauseMtx the driver begins at most "
               "ONE step: handover_at_most_one_step, by a potential argument), no deadlock (in every reachable state with a management call or Stop under way some thread can move WITHOUT "
@@ -70,7 +71,11 @@ LEVEL_TEXT = ("Machine-checked over the same LTS as C04: no lost wake-up (a user
               "(unlimited timeout, no traffic) in which the scheduler reports 'all parked, none enabled' as a deadlock with the schedule as "
               "replay, by the direct check that the driver begins at most one step while a caller waits after its datagram, and by scheduled "
               "producer/driver executions on the async send queue in which every queued buffer must be transmitted and every future resolved "
-              "with no event other than the Send calls themselves (the arming side of this is theorem asyncq_armed of C02).")
+              "with no event other than the Send calls themselves (the arming side of this is theorem asyncq_armed of C02). "
+              "The direct check on the scheduler trace is the monitor stepB of Spec/C04.lean (shared with C04/C08; the driver only parses lines); "
+              "theorem C05.spec_holds_on_model (= Locks.Spec.model_satisfies_spec in mode C05, no hypothesis) proves that it accepts every trace "
+              "of the model for every history (any number of user threads and programs; a Stop's datagram is not a waiting caller): the "
+              "run-time form of handover_at_most_one_step. The outcome 'deadlock' is never a model observation (no_deadlock is the theorem behind that clause).")
 LEVEL_NOTE = ("Trusted: as C04, plus A-PIPE (a datagram sent to the driver's own pipe stays readable until received) and fair scheduling of "
               "the only enabled thread by the OS. Other user threads may overtake a waiting caller on stepMtx (pthread mutexes are not fair): "
               "the bound is in driver steps, as the property states, not in other callers' actions.")
